@@ -53,6 +53,7 @@ class ImplicitRegressionSchmidt(VectorBasedFunction):
         float
             the fitness of the input Equation individual
         """
+        self.eval_count += 1
         _, df_dx = individual.evaluate_equation_with_x_gradient_at(
             x=self.training_data.x)
 
